@@ -87,6 +87,10 @@ impl BeatmapState {
     }
 
     fn convert_path_str(&mut self, point_str: &str, offset: Pos) -> Result<(), ParseBeatmapError> {
+        // A previous line that failed after some of its segments were already
+        // converted must not leak its control points into this path.
+        self.curve_points.clear();
+
         let f = |this: &mut Self, point_split: &[&str]| {
             let mut start_idx = 0;
             let mut end_idx = 0;
